@@ -327,8 +327,8 @@ func discharge(results []*FuncResult, opts SolveOpts) {
 	var jobs []job
 	n := 0
 	for _, fr := range results {
-		if len(fr.Obs) == 0 {
-			continue
+		if len(fr.Obs) == 0 || fr.Enc == nil {
+			continue // nothing to do, or decided by another back end (constant evaluation)
 		}
 		var prelude string
 		func() {
